@@ -261,7 +261,101 @@ pub fn verify_crashed_dir(
         )),
     }
 
-    // --- host reopen #1 (writable recovery inside) -----------------------------
+    // --- idempotence, on a copy: reopen, writable recovery again, reopen again ---
+    // (a copy, because every reopen acquires a fresh writer epoch; the directory
+    // that is handed on for continuation sees exactly one reopen)
+    let copy = dir.with_extension("idem");
+    if let Err(e) = copy_wal_dir(dir, &copy) {
+        res.harness_error = Some(format!("copy for idempotence check: {e}"));
+        return None;
+    }
+    let fp_copy1 = match hostkit::open_host(&copy, n_worldlines) {
+        Ok(h) => Some(hostkit::fingerprint(&h, false)),
+        Err(e) => {
+            res.violations.push((
+                "C10:reopen:failed".into(),
+                format!("enable_runtime_wal on a fresh host failed: {e:?}"),
+            ));
+            let _ = std::fs::remove_dir_all(&copy);
+            return None;
+        }
+    };
+    let seg1 = read_or_empty(&segment_path(&copy));
+    if !has_tail && seg1 != seg0 {
+        res.violations.push((
+            "C10:recovery:not-idempotent".into(),
+            "writable recovery rewrote a log that had no tail to truncate".into(),
+        ));
+    }
+    {
+        let p1 = segparse::parse(&seg1);
+        if p1.torn_at.is_some()
+            || p1.corrupt.is_some()
+            || tx_list_expected(&p1.committed()) != expected_list
+        {
+            res.violations.push((
+                "C10:recovered-prefix:differs-from-independent-parser".into(),
+                format!(
+                    "segment after writable recovery: torn={:?} corrupt={:?} committed={} expected={}",
+                    p1.torn_at,
+                    p1.corrupt,
+                    p1.committed().len(),
+                    expected_list.len()
+                ),
+            ));
+        }
+    }
+    match recover_filesystem_store(&copy, RecoveryAccessMode::Writable) {
+        Ok(r) => {
+            if tx_list_of(&r) != expected_list || r.tail_posture != RecoveryTailPosture::Clean {
+                res.violations.push((
+                    "C10:recovery:not-idempotent".into(),
+                    format!(
+                        "second writable recovery: {} transactions, tail {:?} (first recovery left {} and should have left a clean tail)",
+                        r.transactions.len(),
+                        r.tail_posture,
+                        expected_list.len()
+                    ),
+                ));
+            }
+        }
+        Err(e) => res.violations.push((
+            "C10:recovery:not-idempotent".into(),
+            format!("second writable recovery failed: {e:?}"),
+        )),
+    }
+    if read_or_empty(&segment_path(&copy)) != seg1 {
+        res.violations.push((
+            "C10:recovery:not-idempotent".into(),
+            "second writable recovery changed the segment bytes again".into(),
+        ));
+    }
+    match hostkit::open_host(&copy, n_worldlines) {
+        Ok(h) => {
+            let fp2 = hostkit::fingerprint(&h, false);
+            let d = fp_copy1
+                .as_ref()
+                .map(|a| hostkit::diff_fingerprints(a, &fp2))
+                .unwrap_or_default();
+            if !d.is_empty() || read_or_empty(&segment_path(&copy)) != seg1 {
+                res.violations.push((
+                    "C10:recovery:not-idempotent".into(),
+                    format!(
+                        "second reopen differs from the first: {} (segment bytes equal: {})",
+                        d.iter().take(4).cloned().collect::<Vec<_>>().join(" | "),
+                        read_or_empty(&segment_path(&copy)) == seg1
+                    ),
+                ));
+            }
+        }
+        Err(e) => res.violations.push((
+            "C10:recovery:not-idempotent".into(),
+            format!("second reopen failed: {e:?}"),
+        )),
+    }
+    let _ = std::fs::remove_dir_all(&copy);
+
+    // --- the reopen whose host is checked against the acknowledgement log -------
     let cb0 = hostkit::callbacks();
     let host1 = match hostkit::open_host(dir, n_worldlines) {
         Ok(h) => h,
@@ -308,17 +402,22 @@ pub fn verify_crashed_dir(
             ),
         ));
     }
+    let mut missing = Vec::new();
     for id in acked_submissions {
         res.acks_checked += 1;
         if rec1.submissions.get(id).is_none() || host1.runtime().witnessed_submission(id).is_none() {
-            res.violations.push((
-                "C10:acknowledged:missing-or-different".into(),
-                format!(
-                    "submission {} was acknowledged before the crash point and is not recovered",
-                    verif_core::hex(id)
-                ),
-            ));
+            missing.push(verif_core::hex4(id));
         }
+    }
+    if !missing.is_empty() {
+        res.violations.push((
+            "C10:acknowledged:missing-or-different".into(),
+            format!(
+                "{} submission(s) acknowledged before the crash point are not recovered: {}",
+                missing.len(),
+                missing.join(",")
+            ),
+        ));
     }
     let recovered_ids: BTreeSet<[u8; 32]> = host1
         .runtime()
@@ -346,95 +445,16 @@ pub fn verify_crashed_dir(
         ));
     }
     res.acks_checked += expect_fp.keys().filter(|k| k.ends_with(":outcome")).count() as u64;
-    let seg1 = read_or_empty(&segment_path(dir));
-    if !has_tail && seg1 != seg0 {
-        res.violations.push((
-            "C10:recovery:not-idempotent".into(),
-            "writable recovery rewrote a log that had no tail to truncate".into(),
-        ));
-    }
-    {
-        let p1 = segparse::parse(&seg1);
-        if p1.torn_at.is_some()
-            || p1.corrupt.is_some()
-            || tx_list_expected(&p1.committed()) != expected_list
-        {
-            res.violations.push((
-                "C10:recovered-prefix:differs-from-independent-parser".into(),
-                format!(
-                    "segment after writable recovery: torn={:?} corrupt={:?} committed={} expected={}",
-                    p1.torn_at,
-                    p1.corrupt,
-                    p1.committed().len(),
-                    expected_list.len()
-                ),
-            ));
-        }
-    }
-    drop(host1);
-
-    // --- second writable recovery + host reopen #2: idempotence -----------------
-    match recover_filesystem_store(dir, RecoveryAccessMode::Writable) {
-        Ok(r) => {
-            if tx_list_of(&r) != expected_list || r.tail_posture != RecoveryTailPosture::Clean {
-                res.violations.push((
-                    "C10:recovery:not-idempotent".into(),
-                    format!(
-                        "second writable recovery: {} transactions, tail {:?} (first recovery left {} and should have left a clean tail)",
-                        r.transactions.len(),
-                        r.tail_posture,
-                        expected_list.len()
-                    ),
-                ));
-            }
-        }
-        Err(e) => res.violations.push((
-            "C10:recovery:not-idempotent".into(),
-            format!("second writable recovery failed: {e:?}"),
-        )),
-    }
-    if read_or_empty(&segment_path(dir)) != seg1 {
-        res.violations.push((
-            "C10:recovery:not-idempotent".into(),
-            "second writable recovery changed the segment bytes again".into(),
-        ));
-    }
-    let cb0 = hostkit::callbacks();
-    let host2 = match hostkit::open_host(dir, n_worldlines) {
-        Ok(h) => h,
-        Err(e) => {
-            res.violations.push((
-                "C10:recovery:not-idempotent".into(),
-                format!("second reopen failed: {e:?}"),
-            ));
-            return None;
-        }
-    };
-    if hostkit::callbacks() != cb0 {
-        res.violations.push((
-            "C10:recovery:callback-invoked".into(),
-            "application callbacks ran during the second reopen".into(),
-        ));
-    }
-    let fp2 = hostkit::fingerprint(&host2, false);
-    let d = hostkit::diff_fingerprints(&fp1, &fp2);
-    if !d.is_empty() || read_or_empty(&segment_path(dir)) != seg1 {
-        res.violations.push((
-            "C10:recovery:not-idempotent".into(),
-            format!(
-                "second reopen differs from the first: {} (segment bytes equal: {})",
-                d.iter().take(4).cloned().collect::<Vec<_>>().join(" | "),
-                read_or_empty(&segment_path(dir)) == seg1
-            ),
-        ));
-    }
     res.nontrivial = !expected.is_empty() && has_tail;
-    Some(host2)
+    Some(host1)
 }
 
 /// Retries the whole client session on a recovered host and compares with the
 /// uninterrupted reference: ids, dispositions of not-yet-issued ops, final
-/// state, no duplicated transactions.
+/// state, no duplicated transactions. With `until_new_commit`, runs past
+/// `stop_at` until the run has appended at least one transaction (so that the
+/// writer epoch of this incarnation is not empty — see finding
+/// C10-empty-epoch-lsn-gap, which has its own lane).
 pub fn continue_and_compare(
     mut host: warp_core::TrustedRuntimeHost,
     dir: &Path,
@@ -442,10 +462,18 @@ pub fn continue_and_compare(
     mut mem: ClientMemory,
     first_unissued: usize,
     stop_at: usize,
+    until_new_commit: bool,
     res: &mut CaseResult,
 ) -> Option<(warp_core::TrustedRuntimeHost, Vec<workload::OpRecord>)> {
     let mut recs = Vec::new();
-    for i in 0..stop_at.min(ctx.w.ops.len()) {
+    let start_len = read_or_empty(&segment_path(dir)).len() as u64;
+    let mut i = 0usize;
+    while i < ctx.w.ops.len() {
+        if i >= stop_at
+            && !(until_new_commit && recs.last().is_none_or(|r: &workload::OpRecord| r.seg_len <= start_len))
+        {
+            break;
+        }
         let rec = match exec_op(&mut host, dir, &ctx.w, &mut mem, i) {
             Ok(r) => r,
             Err(e) => {
@@ -486,8 +514,9 @@ pub fn continue_and_compare(
             }
         }
         recs.push(rec);
+        i += 1;
     }
-    if stop_at >= ctx.w.ops.len() {
+    if i >= ctx.w.ops.len() {
         let fp = hostkit::fingerprint(&host, false);
         let d = hostkit::diff_fingerprints(ctx.log.final_fp(), &fp);
         if !d.is_empty() {
@@ -509,6 +538,29 @@ pub fn continue_and_compare(
                 ),
             ));
         }
+        // what was acknowledged during the continuation must itself be durable:
+        // a reader that opens a copy of the directory now sees the final state
+        let copy = dir.with_extension("final");
+        match copy_wal_dir(dir, &copy).map(|()| hostkit::open_host(&copy, ctx.w.n_worldlines)) {
+            Ok(Ok(h)) => {
+                let d = hostkit::diff_fingerprints(ctx.log.final_fp(), &hostkit::fingerprint(&h, false));
+                if !d.is_empty() {
+                    res.violations.push((
+                        "C10:continue:acknowledged-after-recovery-not-durable".into(),
+                        format!(
+                            "reopen after recover+continue differs from what was acknowledged: {}",
+                            d.iter().take(6).cloned().collect::<Vec<_>>().join(" | ")
+                        ),
+                    ));
+                }
+            }
+            Ok(Err(e)) => res.violations.push((
+                "C10:continue:acknowledged-after-recovery-not-durable".into(),
+                format!("reopen after recover+continue failed: {e:?}"),
+            )),
+            Err(e) => res.harness_error = Some(format!("copy: {e}")),
+        }
+        let _ = std::fs::remove_dir_all(&copy);
         res.continued = true;
     }
     Some((host, recs))
@@ -588,7 +640,7 @@ pub fn crash_case(ctx: &Ctx, spec: &CrashSpec, rng: &mut Rng) -> CaseResult {
         if let Some(host) = host {
             let mem = ctx.client_memory_at(p);
             let first_unissued = ctx.log.last_op_within(p).map_or(0, |i| i + 1) + 1;
-            let _ = continue_and_compare(host, &dir, ctx, mem, first_unissued, ctx.w.ops.len(), &mut res);
+            let _ = continue_and_compare(host, &dir, ctx, mem, first_unissued, ctx.w.ops.len(), false, &mut res);
         }
     }
     res
@@ -846,13 +898,23 @@ pub fn cycle_case(ctx: &Ctx, rng: &mut Rng, depth: usize) -> (CaseResult, Vec<Va
     let mut recs: Vec<workload::OpRecord> = ctx.log.ops.clone();
     let mut fp0 = ctx.log.fp0.clone();
     let mut ledger0 = ctx.log.ledger0.clone();
-    let mut issued_upto = ctx.w.ops.len(); // ops issued in the current level's run
-    let mut mem_full = ctx.mem.clone();
     for level in 0..depth {
-        if seg.len() <= base {
+        // The incarnation that is about to die must have committed at least one
+        // transaction (level ≥ 1): an incarnation that dies before its first
+        // commit leaves an *empty writer epoch*, which has its own lane and its
+        // own finding (C10-empty-epoch-lsn-gap).
+        let lo = if level == 0 {
+            base + 1
+        } else {
+            match recs.iter().map(|r| r.seg_len as usize).filter(|l| *l > base).min() {
+                Some(l) => l,
+                None => break,
+            }
+        };
+        if seg.len() < lo {
             break;
         }
-        let p = base + 1 + rng.below_usize(seg.len() - base);
+        let p = lo + rng.below_usize(seg.len() - lo + 1);
         let level_log = RunLog {
             base_len: base as u64,
             ledger0: ledger0.clone(),
@@ -882,8 +944,8 @@ pub fn cycle_case(ctx: &Ctx, rng: &mut Rng, depth: usize) -> (CaseResult, Vec<Va
         acked.dedup();
         let mut sub = CaseResult::default();
         let host = verify_crashed_dir(&dir, ctx.w.n_worldlines, &expect_fp, &acked, &mut sub);
-        trace.push(json!({"level": level, "p": p, "of": seg.len(), "base": base, "ledger": variant,
-            "recovered_transactions": sub.recovered_prefix_len, "violations": sub.violations.len()}));
+        trace.push(json!({"level": level, "crash_at_byte": p, "segment_bytes": seg.len(), "durable_before_this_incarnation": base,
+            "ledger": variant, "recovered_transactions": sub.recovered_prefix_len, "violations": sub.violations.len()}));
         res.acks_checked += sub.acks_checked;
         res.recovered_prefix_len = sub.recovered_prefix_len;
         res.nontrivial |= sub.nontrivial;
@@ -895,63 +957,106 @@ pub fn cycle_case(ctx: &Ctx, rng: &mut Rng, depth: usize) -> (CaseResult, Vec<Va
             return (res, trace);
         }
         let Some(host) = host else { return (res, trace) };
-        // client memory at the crash: ops issued so far in this level
+        // client memory at the crash: what had been issued in this incarnation,
+        // plus everything the client learnt in earlier incarnations
         let inflight = level_log.last_op_within(p as u64).map_or(0, |i| i + 1);
         let mut mem = ClientMemory::new(ctx.w.intents.len());
-        for (i, op) in ctx.w.ops.iter().enumerate().take(issued_upto) {
+        for (i, op) in ctx.w.ops.iter().enumerate() {
             if i > inflight {
                 break;
             }
             if let Op::Submit { intent } = op {
-                mem.envelopes[*intent] = mem_full.envelopes[*intent].clone();
+                mem.envelopes[*intent] = ctx.mem.envelopes[*intent].clone();
                 if i < inflight {
-                    mem.ids[*intent] = mem_full.ids[*intent];
+                    mem.ids[*intent] = ctx.mem.ids[*intent];
                 }
             }
         }
-        // continue: last level goes to the end, earlier levels stop somewhere
         let stop = if level + 1 == depth {
             ctx.w.ops.len()
         } else {
-            (inflight + 1 + rng.below_usize(ctx.w.ops.len() - inflight.min(ctx.w.ops.len() - 1)))
-                .min(ctx.w.ops.len())
+            (inflight + 1 + rng.below_usize(ctx.w.ops.len().saturating_sub(inflight).max(1))).min(ctx.w.ops.len())
         };
         base = read_or_empty(&segment_path(&dir)).len();
         ledger0 = read_or_empty(&ledger_path(&dir));
         fp0 = hostkit::fingerprint(&host, false);
-        let first_unissued = inflight + 1;
+        res.continued = false;
         let Some((host, new_recs)) =
-            continue_and_compare(host, &dir, ctx, mem, first_unissued, stop, &mut res)
+            continue_and_compare(host, &dir, ctx, mem, inflight + 1, stop, true, &mut res)
         else {
             return (res, trace);
         };
         drop(host);
         recs = new_recs;
-        issued_upto = stop;
         seg = read_or_empty(&segment_path(&dir));
-        mem_full = ctx.mem.clone();
-    }
-    if !res.continued && res.violations.is_empty() && dir.exists() {
-        // the cycle ended early (nothing new to tear): clean restart, run to the end
-        match hostkit::open_host(&dir, ctx.w.n_worldlines) {
-            Ok(host) => {
-                let mut mem = ClientMemory::new(ctx.w.intents.len());
-                for (i, op) in ctx.w.ops.iter().enumerate().take(issued_upto) {
-                    let _ = i;
-                    if let Op::Submit { intent } = op {
-                        mem.envelopes[*intent] = mem_full.envelopes[*intent].clone();
-                        mem.ids[*intent] = mem_full.ids[*intent];
-                    }
-                }
-                let _ = continue_and_compare(host, &dir, ctx, mem, issued_upto, ctx.w.ops.len(), &mut res);
-            }
-            Err(e) => res.violations.push((
-                "C10:reopen:failed".into(),
-                format!("clean restart at the end of a cycle failed: {e:?}"),
-            )),
+        if !res.violations.is_empty() {
+            break;
         }
     }
     (res, trace)
+}
+
+// ------------------------------------------------------------------ lane F ----
+
+/// Incarnations that die (or simply exit) before their first commit: reopen
+/// `n_empty` times without committing, then continue the session to its end and
+/// reopen once more. Everything acknowledged must still be there.
+pub fn empty_epoch_case(ctx: &Ctx, p: usize, n_empty: usize) -> CaseResult {
+    let mut res = CaseResult::default();
+    let scratch = Scratch::new("c10-empty-epoch");
+    let dir = scratch.path().join("wal");
+    let ledger = ctx.log.ledgers_for(p as u64)[0].1.clone();
+    if let Err(e) = make_crash_dir(&dir, &ctx.log.segment, p, Some(&ledger), &[]) {
+        res.harness_error = Some(e.to_string());
+        return res;
+    }
+    let expect_fp = ctx.log.fp_at(p as u64).clone();
+    for k in 0..n_empty {
+        match hostkit::open_host(&dir, ctx.w.n_worldlines) {
+            Ok(h) => {
+                let d = hostkit::diff_fingerprints(&expect_fp, &hostkit::fingerprint(&h, false));
+                if !d.is_empty() {
+                    res.violations.push((
+                        "C10:acknowledged:missing-or-different".into(),
+                        format!("reopen #{k} without commits: {}", d.iter().take(4).cloned().collect::<Vec<_>>().join(" | ")),
+                    ));
+                }
+            }
+            Err(e) => {
+                res.violations.push((
+                    "C10:reopen:failed".into(),
+                    format!("reopen #{k} (no commits in between) failed: {e:?}"),
+                ));
+                return res;
+            }
+        }
+    }
+    let host = match hostkit::open_host(&dir, ctx.w.n_worldlines) {
+        Ok(h) => h,
+        Err(e) => {
+            res.violations.push(("C10:reopen:failed".into(), format!("final reopen failed: {e:?}")));
+            return res;
+        }
+    };
+    let mem = ctx.client_memory_at(p as u64);
+    let first_unissued = ctx.log.last_op_within(p as u64).map_or(0, |i| i + 1) + 1;
+    let mut sub = CaseResult::default();
+    let _ = continue_and_compare(host, &dir, ctx, mem, first_unissued, ctx.w.ops.len(), false, &mut sub);
+    res.harness_error = sub.harness_error;
+    res.continued = sub.continued;
+    for (s, w) in sub.violations {
+        let sig = if s == "C10:continue:acknowledged-after-recovery-not-durable" && w.contains("LsnContinuityMismatch") {
+            "C10:empty-writer-epoch:lsn-gap-unrecoverable".to_owned()
+        } else {
+            s
+        };
+        res.violations.push((
+            sig,
+            format!("crash prefix {p}, then {n_empty} incarnation(s) that exit before their first commit, then the session continues: {w}"),
+        ));
+    }
+    res.nontrivial = res.recovered_prefix_len > 0 || ctx.txs.iter().any(|t| t.end <= p);
+    res
 }
 
 // ------------------------------------------------------------------ lane E ----
@@ -989,22 +1094,15 @@ pub fn child_recover_rlimit(args: &Args) -> i32 {
     }
 }
 
-pub fn recovery_crash_case(ctx: &Ctx, p: usize, limit: u64) -> (CaseResult, String) {
-    let mut res = CaseResult::default();
+/// Phase 1 (no host is open in this process while children are forked — a
+/// forked child briefly inherits every open descriptor, including another
+/// thread's writer-lease lock, until it execs).
+pub fn recovery_crash_spawn(ctx: &Ctx, p: usize, limit: u64) -> Result<(Scratch, String), String> {
     let scratch = Scratch::new("c10-rcrash");
     let dir = scratch.path().join("wal");
     let ledger = ctx.log.ledgers_for(p as u64)[0].1.clone();
-    if let Err(e) = make_crash_dir(&dir, &ctx.log.segment, p, Some(&ledger), &[]) {
-        res.harness_error = Some(e.to_string());
-        return (res, String::new());
-    }
-    let exe = match std::env::current_exe() {
-        Ok(e) => e,
-        Err(e) => {
-            res.harness_error = Some(format!("current_exe: {e}"));
-            return (res, String::new());
-        }
-    };
+    make_crash_dir(&dir, &ctx.log.segment, p, Some(&ledger), &[]).map_err(|e| e.to_string())?;
+    let exe = std::env::current_exe().map_err(|e| format!("current_exe: {e}"))?;
     let out = std::process::Command::new(exe)
         .args([
             "--prop",
@@ -1018,36 +1116,33 @@ pub fn recovery_crash_case(ctx: &Ctx, p: usize, limit: u64) -> (CaseResult, Stri
             "--worldlines",
             &ctx.w.n_worldlines.to_string(),
         ])
-        .output();
-    let how = match out {
-        Ok(o) => {
-            use std::os::unix::process::ExitStatusExt;
-            if let Some(sig) = o.status.signal() {
-                format!("killed by signal {sig}")
-            } else {
-                format!(
-                    "exit {:?} {}",
-                    o.status.code(),
-                    String::from_utf8_lossy(&o.stdout).chars().take(200).collect::<String>()
-                )
-            }
-        }
-        Err(e) => {
-            res.harness_error = Some(format!("spawn child: {e}"));
-            return (res, String::new());
-        }
+        .output()
+        .map_err(|e| format!("spawn child: {e}"))?;
+    use std::os::unix::process::ExitStatusExt;
+    let how = if let Some(sig) = out.status.signal() {
+        format!("killed by signal {sig}")
+    } else {
+        format!(
+            "exit {:?} {}",
+            out.status.code(),
+            String::from_utf8_lossy(&out.stdout).chars().take(200).collect::<String>()
+        )
     };
+    Ok((scratch, how))
+}
+
+/// Phase 2: whatever the dead child left behind must still recover to what was
+/// acknowledged at the original crash point.
+pub fn recovery_crash_verify(ctx: &Ctx, scratch: &Scratch, how: &str, p: usize, limit: u64) -> CaseResult {
+    let mut res = CaseResult::default();
+    let dir = scratch.path().join("wal");
     let expect_fp = ctx.log.fp_at(p as u64).clone();
     let acked = acked_submissions(&ctx.log, p as u64);
     let mut sub = CaseResult::default();
     let _ = verify_crashed_dir(&dir, ctx.w.n_worldlines, &expect_fp, &acked, &mut sub);
     res.acks_checked = sub.acks_checked;
     res.recovered_prefix_len = sub.recovered_prefix_len;
-    res.harness_error = sub.harness_error.map(|e| {
-        // a directory the independent parser cannot read after an interrupted
-        // repair is itself the observation, not a harness problem
-        e
-    });
+    res.harness_error = sub.harness_error;
     for (s, w) in sub.violations {
         let sig = match s.as_str() {
             "C10:acknowledged:missing-or-different"
@@ -1061,7 +1156,57 @@ pub fn recovery_crash_case(ctx: &Ctx, p: usize, limit: u64) -> (CaseResult, Stri
         ));
     }
     res.nontrivial = how.starts_with("killed");
-    (res, how)
+    res
+}
+
+pub fn recovery_crash_case(ctx: &Ctx, p: usize, limit: u64) -> (CaseResult, String) {
+    match recovery_crash_spawn(ctx, p, limit) {
+        Ok((scratch, how)) => (recovery_crash_verify(ctx, &scratch, &how, p, limit), how),
+        Err(e) => (
+            CaseResult {
+                harness_error: Some(e),
+                ..CaseResult::default()
+            },
+            String::new(),
+        ),
+    }
+}
+
+/// Not a check — a recorded observation that explains a generator constraint:
+/// an idle scheduler pass advances the in-memory GlobalTick without a WAL
+/// record, so after a reopen the tick resumes from the last *committed* pass.
+fn idle_pass_observation() -> Result<Value, String> {
+    let scratch = Scratch::new("c10-idle");
+    let dir = scratch.path().join("wal");
+    let mut host = hostkit::open_host(&dir, 1).map_err(|e| format!("{e:?}"))?;
+    let spec = hostkit::IntentSpec {
+        worldline: 0,
+        slot: 0,
+        amount: 1,
+        parents: vec![],
+        fake_parent: None,
+    };
+    let h = host
+        .app()
+        .submit_intent_with_runtime_wal_ack(hostkit::envelope(&spec, vec![]))
+        .map_err(|e| format!("{e:?}"))?;
+    host.stage_installed_contract_submission(h.submission_id, &hostkit::admission_ticket(9))
+        .map_err(|e| format!("{e:?}"))?;
+    host.tick_once().map_err(|e| format!("{e:?}"))?;
+    let after_commit = host.runtime().global_tick().as_u64();
+    let len_before = read_or_empty(&segment_path(&dir)).len();
+    host.tick_once().map_err(|e| format!("{e:?}"))?;
+    let after_idle = host.runtime().global_tick().as_u64();
+    let len_after = read_or_empty(&segment_path(&dir)).len();
+    drop(host);
+    let host = hostkit::open_host(&dir, 1).map_err(|e| format!("{e:?}"))?;
+    Ok(json!({
+        "global_tick_after_committing_pass": after_commit,
+        "global_tick_after_idle_pass": after_idle,
+        "segment_bytes_appended_by_idle_pass": len_after - len_before,
+        "global_tick_after_reopen": host.runtime().global_tick().as_u64(),
+        "consequence": "idle passes are not durable facts; workloads therefore contain no idle passes, otherwise commit_global_tick of receipts issued after a crash would legitimately differ from the uninterrupted run",
+    }))
 }
 
 // ------------------------------------------------------------------ driver ----
@@ -1085,7 +1230,11 @@ fn report_case(rep: &mut Report, ctx: &Ctx, lane: &str, params: Value, res: &Cas
     if res.continued {
         rep.count("continuations_compared_with_uninterrupted_run", 1);
     }
+    let mut seen = BTreeSet::new();
     for (sig, what) in &res.violations {
+        if !seen.insert(sig.clone()) {
+            continue; // one report per (case, signature)
+        }
         rep.violation(
             sig,
             what,
@@ -1164,7 +1313,7 @@ pub fn run(args: &Args) -> i32 {
     rep.assumption("staging (stage_installed_contract_submission) is process-local and not acknowledged as durable; a pending submission's volatile ticketed-ingress id is excluded from cross-crash comparison");
     rep.assumption("WAL-internal coordinates of new transactions (writer epoch, LSN base after a repair) are not compared across recovery; submission ids, generations, receipts, commit hashes, state roots and provenance are");
 
-    let n_workloads = args.by_tier(1u64, 6u64);
+    let n_workloads = args.by_tier(2u64, 6u64);
     let mut all_exhaustive = true;
     let mut lanes_skipped: Vec<String> = Vec::new();
     let mut wl_summaries = Vec::new();
@@ -1174,7 +1323,7 @@ pub fn run(args: &Args) -> i32 {
             break;
         }
         // quick: one ≈6-transaction log; thorough: small logs, every byte
-        let n_intents = args.by_tier(4usize, 2 + (wi as usize % 2));
+        let n_intents = args.by_tier(4 + wi as usize, 2 + (wi as usize % 2));
         let w = workload_for(args.seed, wi, n_intents);
         let ctx = match Ctx::build(w, wi) {
             Ok(c) => c,
@@ -1194,7 +1343,7 @@ pub fn run(args: &Args) -> i32 {
         let mut rng = Rng::for_case(args.seed, "C10-points", wi);
         let every_byte = !args.is_quick();
         let specs = crash_specs(&ctx, args, &mut rng, every_byte, 400);
-        let lane_budget = budget.slice(args.by_tier(0.42, 0.80 / n_workloads as f64));
+        let lane_budget = budget.slice(args.by_tier(0.22, 0.80 / n_workloads as f64));
         let n_shards = (args.jobs * 4).max(1);
         let done = std::sync::atomic::AtomicUsize::new(0);
         verif_core::run_shards(&mut rep, args.jobs, n_shards, |shard, rep| {
@@ -1232,7 +1381,7 @@ pub fn run(args: &Args) -> i32 {
         let fault_cases: Vec<(usize, &str)> = (0..ctx.w.ops.len())
             .flat_map(|i| hostkit::FAULT_TARGETS.iter().map(move |(n, _)| (i, *n)))
             .collect();
-        let lane_budget = budget.slice(args.by_tier(0.2, 0.06 / n_workloads as f64 + 0.01));
+        let lane_budget = budget.slice(args.by_tier(0.1, 0.06 / n_workloads as f64 + 0.01));
         let fdone = std::sync::atomic::AtomicUsize::new(0);
         verif_core::run_shards(&mut rep, args.jobs, fault_cases.len().max(1), |shard, rep| {
             let Some((i, t)) = fault_cases.get(shard) else { return };
@@ -1259,7 +1408,7 @@ pub fn run(args: &Args) -> i32 {
 
         // ---- lane C
         let n_cycles = args.by_tier(24u64, 60u64);
-        let lane_budget = budget.slice(args.by_tier(0.15, 0.05 / n_workloads as f64 + 0.01));
+        let lane_budget = budget.slice(args.by_tier(0.08, 0.05 / n_workloads as f64 + 0.01));
         verif_core::run_shards(&mut rep, args.jobs, n_cycles as usize, |shard, rep| {
             if lane_budget.expired() {
                 return;
@@ -1277,7 +1426,7 @@ pub fn run(args: &Args) -> i32 {
 
         // ---- lane E: death during recovery's tail repair
         {
-            let lane_budget = budget.slice(args.by_tier(0.1, 0.03 / n_workloads as f64 + 0.005));
+            let lane_budget = budget.slice(args.by_tier(0.05, 0.03 / n_workloads as f64 + 0.005));
             let mut rng = Rng::for_case(args.seed, "C10-rcrash", wi);
             // crash prefixes that leave ≥1 committed transaction and a torn tail
             let mut cases = Vec::new();
@@ -1295,18 +1444,59 @@ pub fn run(args: &Args) -> i32 {
                 let limit = rng.below(end as u64 + 300);
                 cases.push((p, limit));
             }
-            verif_core::run_shards(&mut rep, args.jobs, cases.len().max(1), |shard, rep| {
-                let Some((p, limit)) = cases.get(shard) else { return };
-                if lane_budget.expired() {
-                    return;
+            // phase 1: fork the children (in parallel, nothing else running)
+            let spawned: std::sync::Mutex<Vec<(usize, Result<(Scratch, String), String>)>> =
+                std::sync::Mutex::new(Vec::new());
+            let next = std::sync::atomic::AtomicUsize::new(0);
+            std::thread::scope(|sc| {
+                for _ in 0..args.jobs.max(1).min(cases.len().max(1)) {
+                    sc.spawn(|| loop {
+                        let i = next.fetch_add(1, std::sync::atomic::Ordering::Relaxed);
+                        if i >= cases.len() || lane_budget.expired() {
+                            break;
+                        }
+                        let r = recovery_crash_spawn(&ctx, cases[i].0, cases[i].1);
+                        spawned.lock().unwrap_or_else(std::sync::PoisonError::into_inner).push((i, r));
+                    });
                 }
-                let (res, how) = recovery_crash_case(&ctx, *p, *limit);
+            });
+            let spawned = spawned.into_inner().unwrap_or_else(std::sync::PoisonError::into_inner);
+            // phase 2: verify what the dead children left behind
+            verif_core::run_shards(&mut rep, args.jobs, spawned.len().max(1), |shard, rep| {
+                let Some((i, r)) = spawned.get(shard) else { return };
+                let (p, limit) = cases[*i];
+                let (res, how) = match r {
+                    Ok((scratch, how)) => (recovery_crash_verify(&ctx, scratch, how, p, limit), how.clone()),
+                    Err(e) => {
+                        rep.inconclusive(&format!("crash-during-recovery: {e}"));
+                        return;
+                    }
+                };
                 rep.count("recovery_crash_cases", 1);
                 if how.starts_with("killed") {
                     rep.count("recovery_crash_child_killed_mid_repair", 1);
                 }
                 rep.observe("recovery_crash_child_fate", how.split(' ').take(4).collect::<Vec<_>>().join(" ").as_str());
                 report_case(rep, &ctx, "crash-during-recovery", json!({"p": p, "fsize_limit": limit}), &res);
+            });
+        }
+
+        // ---- lane F: incarnations that exit before their first commit
+        {
+            let mut rng = Rng::for_case(args.seed, "C10-empty-epoch", wi);
+            let mut cases: Vec<(usize, usize)> = Vec::new();
+            for t in &ctx.txs {
+                cases.push((t.end, 1));
+            }
+            for _ in 0..args.by_tier(6, 24) {
+                cases.push((rng.below_usize(ctx.log.segment.len() + 1), 1 + rng.below_usize(2)));
+            }
+            cases.push((0, 2));
+            verif_core::run_shards(&mut rep, args.jobs, cases.len(), |shard, rep| {
+                let Some((p, n)) = cases.get(shard) else { return };
+                let res = empty_epoch_case(&ctx, *p, *n);
+                rep.count("empty_epoch_cases", 1);
+                report_case(rep, &ctx, "empty-epoch", json!({"p": p, "n_empty": n}), &res);
             });
         }
 
@@ -1334,6 +1524,10 @@ pub fn run(args: &Args) -> i32 {
                 }
             }
         }
+    }
+    match idle_pass_observation() {
+        Ok(v) => rep.set("observation_idle_scheduler_pass", v),
+        Err(e) => rep.inconclusive(&format!("idle-pass observation: {e}")),
     }
     rep.set("workloads", Value::Array(wl_summaries));
     rep.set("lanes_skipped", json!(lanes_skipped));
@@ -1406,6 +1600,11 @@ fn replay(args: &Args, path: &Path, mut rep: Report) -> i32 {
             println!("child: {how}");
             res
         }
+        "empty-epoch" => empty_epoch_case(
+            &ctx,
+            params["p"].as_u64().unwrap_or(0) as usize,
+            params["n_empty"].as_u64().unwrap_or(1) as usize,
+        ),
         "strace" => match crate::strace_lane::run_lane(&ctx) {
             Ok(out) => {
                 let mut res = CaseResult::default();
